@@ -57,6 +57,34 @@ def gen(seed, tier):
         if L <= 17:
             out.append(f"matmul@{ty} {arr([L, L], small(L * L))} {arr([L, L], small(L * L))}")
             out.append(f"outer@{ty} {arr([L], small(L))} {arr([L + 1], small(L + 1))}")
+    # float entries from the pool (NaN, infinities, signed zeros, fractions, 1e300, subnormal): the model names the
+    # products each entry adds, in order; agree() evaluates that expression in IEEE arithmetic
+    fp = lambda n: [rng.randrange(20) for _ in range(n)]
+    tame = lambda n: [rng.choice([2, 3, 4, 5, 6, 7, 14, 15, 16, 17, 18, 19, 0, 1]) for _ in range(n)]
+    for k_, (s1, s2) in enumerate(itertools.product(vecs + mats, repeat=2)):
+        if tier == "quick" and k_ % 2:
+            continue
+        ty = "f64p" if k_ % 4 < 2 else "f32p"
+        pick = fp if k_ % 3 else tame
+        a, b = arr(s1, pick(prod(s1))), arr(s2, pick(prod(s2)))
+        out.append(f"sym_matmul@{ty} {a} {b}")
+        if k_ % 5 == 0:
+            out.append(f"sym_dot@{ty} {a} {b}")
+        if prod(s1) <= 6 and prod(s2) <= 6:
+            out.append(f"sym_outer@{ty} {a} {b}")
+            out.append(f"sym_vdot@{ty} {a} {b}")
+        if len(s1) == len(s2):
+            out.append(f"sym_inner@{ty} {a} {b}")
+    for L in (8, 17, 33, 64):
+        for ty in ("f64p", "f32p"):
+            out.append(f"sym_vdot@{ty} {arr([L], tame(L))} {arr([L], tame(L))}")
+            out.append(f"sym_inner@{ty} {arr([L], fp(L))} {arr([L], tame(L))}")
+            if L <= 17:
+                out.append(f"sym_matmul@{ty} {arr([L, L], tame(L * L))} {arr([L], tame(L))}")
+    for b_ in (2, 3):
+        for n_ in (1, 2, 3):
+            s1 = [b_, n_, n_]
+            out.append(f"sym_matmul@f64p {arr(s1, fp(prod(s1)))} {arr(s1, tame(prod(s1)))}")
     n = 100 if tier == "quick" else 3000
     for _ in range(n):
         r, kk, p = rng.randint(1, 5), rng.randint(1, 5), rng.randint(1, 5)
@@ -67,8 +95,45 @@ def gen(seed, tier):
     return out
 
 
+def _sym_judge(case, impl, model):
+    """the model's formal sums evaluated on the case's float values (floatsem: exact NaN / infinity behaviour, finite
+    values within a rounding bound; evaluation order and fused operations are not pinned)"""
+    import vlib, re
+    import floatsem
+    t = case.split(" ")
+    single = t[0].endswith("f32p")
+    la = [x for x in t[1].split(":")[1].split(",") if x]
+    lb = [x for x in t[2].split(":")[1].split(",") if x]
+    m = re.match(r"^list\((.*)\)$", model)
+    got = vlib.parse_arr(impl)
+    if not m or got is None:
+        return False
+    parts = m.group(1).split(";")
+    lists = [[int(x) for x in p[2:-1].split(",") if x] for p in parts]
+    shape, entries = lists[0], lists[1:]
+    if "x".join(str(d) for d in shape) != got[0] or len(entries) != len(got[1]):
+        return False
+    for codes, tok in zip(entries, got[1]):
+        terms = []
+        for c in codes:
+            i, j = divmod(c - 1, 1000)
+            terms.append(floatsem.product_spec([floatsem.value(la[i], single), floatsem.value(lb[j], single)]))
+        if t[0].startswith("sym_outer"):
+            spec = terms[0] if terms[0][0] != "num" else ("num", terms[0][1], abs(terms[0][1]))
+        else:
+            spec = floatsem.sum_spec(terms)
+        mags = [abs(x[1]) for x in terms if x[0] == "num"]
+        if floatsem.judge(tok, spec, single, 2 * len(terms) + 1, mags=mags) is False:
+            return False
+    return True
+
+
 def agree(case, impl, model):
-    # values, not bit patterns: -0.0 (a product such as 0 * -3) equals 0
     import vlib
+    if case.startswith("sym_"):
+        if not model.startswith("list("):
+            return vlib.canon(impl) == vlib.canon(model)
+        return _sym_judge(case, impl, model)
+    # values, not bit patterns: -0.0 (a product such as 0 * -3) equals 0
     nz = impl.replace("f8000000000000000", "0").replace("f80000000", "0")
     return vlib.canon(nz) == vlib.canon(model)
